@@ -130,7 +130,7 @@ def census(repo: Repo) -> Dict[str, List[Mut]]:
                 if isinstance(ch, (ast.FunctionDef, ast.AsyncFunctionDef)):
                     il = inline.Inliner(repo, owners.get(id(ch)), sf)
                     try:
-                        flat = il.flatten(ch)
+                        flat = inline.unroll(il.flatten(ch), repo, owners.get(id(ch)), sf)     # getattr(x, "in_links") reads as x.in_links
                     except Exception:
                         flat = ch
                     inlined_names.update(il.inlined)
@@ -148,6 +148,21 @@ def census(repo: Repo) -> Dict[str, List[Mut]]:
                 else:
                     rec(ch, prefix)
         rec(sf.tree, "")
+    # members installed by code (see sa/synth.py) are functions of their class as well
+    for c in repo.all_classes():
+        if not c.file.modname.startswith("rv"):
+            continue
+        for name, f in list(c.methods.items()) + list(c.setters.items()):
+            if getattr(f, "_synthetic", False):
+                il = inline.Inliner(repo, c, c.file)
+                try:
+                    flat = inline.unroll(il.flatten(f), repo, c, c.file)
+                except Exception:
+                    flat = f
+                inlined_names.update(il.inlined)
+                ms = function_muts(flat)
+                if ms:
+                    out[f"{c.file.rel}:{c.qualname}.{name}"] = ms
     for key in list(out):
         name = key.rsplit(".", 1)[-1].split(":")[-1]
         if name in inlined_names and name.startswith("_") and not name.startswith("__") and not called_raw.get(name):
